@@ -6,6 +6,7 @@ import (
 	"math"
 	"os"
 	"path/filepath"
+	"strings"
 
 	wt "github.com/hnakamur/whispertool"
 	wcmd "github.com/hnakamur/whispertool/cmd"
@@ -109,6 +110,16 @@ func c11Eval(c *fw.Ctx, k c11Case) (sig, desc string, nontrivial bool) {
 	}
 	out := filepath.Join(root, "out.txt")
 	ctx := fmt.Sprintf("layout %s now=%d sources=%v dest=%v(%s) archive=%d from=%d until=%d", k.Layout, k.Now, k.Codes, k.Dst, k.DstKind, k.Archive, k.From, k.Until)
+	if k.DstKind == "missing" {
+		// before anything is copied the destinations do not exist: sum-diff must say so as a difference (with an err:
+		// line naming the destination side), not succeed and not break off with a plain error
+		sd0 := &wcmd.SumDiffCommand{SrcBase: sbase, ItemPattern: "it/*", SrcPattern: "*.wsp", DestBase: dbase, DestRelPath: "sum.wsp", From: tsOf(k.From), Until: tsOf(k.Until), ArchiveID: k.Archive, TextOut: out}
+		err0, pn0 := RunCommand(k.Now, sd0)
+		t0 := readAndRemove(out)
+		if cls := classify(err0, pn0); cls != "diff-found" || !strings.Contains(t0, "srcOrDest:destination") {
+			return "C11/sum-diff/missing-destination/" + cls, fmt.Sprintf("sum-diff %s: the destination does not exist: verdict %s (%v), output %q", ctx, cls, err0, clip(t0, 300)), true
+		}
+	}
 	sc := &wcmd.SumCopyCommand{SrcBase: sbase, DestBase: dbase, ItemPattern: "it/*", SrcPattern: "*.wsp", DestRelPath: "sum.wsp",
 		AggregationMethod: wt.Sum, XFilesFactor: 0, ArchiveInfoList: archList(l.Archs), From: tsOf(k.From), Until: tsOf(k.Until), ArchiveID: k.Archive, TextOut: out}
 	err, pn := RunCommand(k.Now, sc)
